@@ -2,6 +2,7 @@ import Driver.Proto
 import CifModel.Model.Normalize
 import CifModel.Model.NormalizeBuf
 import CifModel.Model.Serialize
+import CifModel.Model.NamesApi
 import CifModel.Gen.ErrCodes
 /- family `norm` (C09).  The request the model sees is the executor's request followed by ` | g:<x>:<NFD x>:<fold NFD x>:<NFC fold NFD x>:<NFC x> …`
    (tools/gen/norm.py `model_request`): the graph of ICU's functions on the strings involved, which instantiates the model's
@@ -69,61 +70,74 @@ def runMatch (U : UnicodeOps) (kind : String) (a b : Str) : Option String := do
 /-- insertion sort of hex strings (the executor sorts keys as C strings of lower-case hex) -/
 def sortStrings (l : List String) : List String := (l.toArray.qsort (· < ·)).toList
 
-/-- stands for the unknown value (cif_packet_create) among the character tags of the map histories -/
-def unknownTag : Str := [0xfffe, 0xfffe]
+/-- the character value a map history stores under a tag -/
+def tagV (t : Str) : V := .chr true t
 
-/-- a table of character values through `cif_value_serialize` and `cif_value_deserialize` (what storing it in a managed CIF and
-    reading it back does) -/
-def throughBlob (es : Entries Str) : Option (Entries Str) :=
-  let v : V := .tbl (es.map fun e => (e.1, e.2.1, V.chr true e.2.2))
-  match CifModel.Model.Serialize.deserialize (fun _ => none) (CifModel.Model.Serialize.ser v) with
-  | some (.tbl es', []) => es'.mapM fun e => match e.2.2 with | .chr _ t => some (e.1, e.2.1, t) | _ => none
+/-- a value of a map history as the executor prints it: the text of a character value, `~` for anything else (the unknown value
+    of cif_packet_create) -/
+def showTag : V → String
+  | .chr _ t => hex t
+  | _ => "~"
+
+/-- a table through `cif_value_serialize` and `cif_value_deserialize` (what storing it in a managed CIF and reading it back does) -/
+def throughBlob (es : List Value.Entry) : Option (List Value.Entry) :=
+  match CifModel.Model.Serialize.deserialize (fun _ => none) (CifModel.Model.Serialize.ser (.tbl es)) with
+  | some (.tbl es', []) => some es'
   | _ => none
 
+/-- table / packet histories run on the entry-point models of Model/Value.lean INSTANTIATED with the C09 normalisers
+    (`tableNorm U`, `itemNorm U` of Model/NamesApi.lean): `Value.tableSet / tableGet / tableRemove / tableKeys`,
+    `Value.packetSet / packetGet / packetRemove / packetNames / packetCreate` — the very terms `C09_entry_points` and
+    `C09_code_table` are about; every refusal code printed comes out of those functions -/
 def runMap (U : UnicodeOps) (isTbl : Bool) (ops : List String) : Option String := do
-  let norm : Option Str → Except Code Str :=
-    if isTbl then (fun n => normalizeTableIndex U n CIF_INVALID_INDEX) else (fun n => normalizeItemName U n CIF_INVALID_ITEMNAME)
-  let normGet : Option Str → Except Code Str :=
-    if isTbl then (fun n => normalizeTableIndex U n CIF_NOSUCH_ITEM) else (fun n => normalizeItemName U n CIF_NOSUCH_ITEM)
-  let step (acc : Entries Str × List String) (op : String) : Option (Entries Str × List String) :=
+  let step (acc : List Value.Entry × List String) (op : String) : Option (List Value.Entry × List String) :=
     let (es, out) := acc
     match op.splitOn ":" with
-    | ["k"] => some (es, s!"k=[{",".intercalate (sortStrings (es.keys.map hex))}]" :: out)
+    | ["k"] =>
+        let ks := if isTbl then (match Value.tableKeys (.tbl es) with | .ok ks => ks | .error _ => []) else Value.packetNames es
+        some (es, s!"k=[{",".intercalate (sortStrings (ks.map hex))}]" :: out)
     | ["s", k, t] => do
         let k ← unhex k; let t ← unhex t
-        match es.set norm k t with
-        | .ok es' => pure (es', "s=0" :: out)
-        | .error c => pure (es, s!"s={c}" :: out)
+        if isTbl then
+          match Value.tableSet (tableNorm U) (.tbl es) k (some (tagV t)) with
+          | .ok (.tbl es') => pure (es', "s=0" :: out)
+          | .ok _ => none
+          | .error c => pure (es, s!"s={c}" :: out)
+        else
+          match Value.packetSet (itemNorm U) es k (some (tagV t)) with
+          | .ok es' => pure (es', "s=0" :: out)
+          | .error c => pure (es, s!"s={c}" :: out)
     | ["g", k] => do
         let k ← unhex k
-        match es.get normGet k CIF_NOSUCH_ITEM with
-        | .ok t => pure (es, (if t == unknownTag then "g=0/~" else s!"g=0/{hex t}") :: out)
+        match (if isTbl then Value.tableGet (tableNorm U) (.tbl es) k else Value.packetGet (itemNorm U) es k) with
+        | .ok v => pure (es, s!"g=0/{showTag v}" :: out)
         | .error c => pure (es, s!"g={c}/~" :: out)
     | ["r", k] => do
         let k ← unhex k
-        match es.remove normGet k CIF_NOSUCH_ITEM with
-        | .ok es' => pure (es', "r=0" :: out)
-        | .error c => pure (es, s!"r={c}" :: out)
+        if isTbl then
+          match Value.tableRemove (tableNorm U) (.tbl es) k with
+          | .ok (.tbl es', _) => pure (es', "r=0" :: out)
+          | .ok _ => none
+          | .error c => pure (es, s!"r={c}" :: out)
+        else
+          match Value.packetRemove (itemNorm U) es k with
+          | .ok (es', _) => pure (es', "r=0" :: out)
+          | .error c => pure (es, s!"r={c}" :: out)
     | ["C"] => if isTbl then some (es, "C=0" :: out) else none
     | ["N", names] =>
         if isTbl then none else do
           let ns ← (names.splitOn ",").mapM unhex
-          -- cif_packet_create: every name normalised first (any invalid one: CIF_INVALID_ITEMNAME), then one entry per name holding
-          -- the unknown value; two names of one item: CIF_DUP_ITEMNAME
-          match ns.mapM (fun n => match norm (some n) with | .ok k => some (k, n) | .error _ => none) with
-          | none => pure (es, s!"N={CIF_INVALID_ITEMNAME}" :: out)
-          | some ks =>
-            if (ks.map (·.1)).eraseDups.length != ks.length then pure (es, s!"N={CIF_DUP_ITEMNAME}" :: out)
-            else pure (ks.map (fun p => (p.1, p.2, unknownTag)), "N=0" :: out)
+          match Value.packetCreate (itemNorm U) ns with
+          | .ok p => pure (p, "N=0" :: out)
+          | .error c => pure (es, s!"N={c}" :: out)
     | ["S"] => if isTbl then (match throughBlob es with | some es' => some (es', "S=0/0" :: out) | none => some (es, "S=MODEL:deserialize" :: out)) else none
     | ["P"] =>
         if isTbl then (match throughBlob es with | some es' => some (es', "P=0/0" :: out) | none => some (es, "P=MODEL:deserialize" :: out))
         else if es.isEmpty then some (es, "P=skip" :: out)
         else some (es.map (fun e => (e.1, e.1, e.2.2)), "P=0/0" :: out)
     | _ => none
-  let (_, out) ← ops.foldlM step (([] : Entries Str), ([] : List String))
+  let (_, out) ← ops.foldlM step (([] : List Value.Entry), ([] : List String))
   pure (" ".intercalate ("nm" :: out.reverse))
-
 
 /-! ### buffer level -/
 open CifModel.Model.NormBuf in
